@@ -1,7 +1,7 @@
 /-
   `sfmodel small1 <container>` — runs the stand-alone container models of group 1 (SfModel/Avr.lean, Ircam.lean,
-  Paf.lean, Svx.lean, Voc.lean, Nist.lean over SfModel/SmallSession.lean), one request per stdin line, one answer
-  line each.  <container> = avr | ircam | paf | svx | voc | nist.
+  Paf.lean, Svx.lean over SfModel/SmallSession.lean), one request per stdin line, one answer
+  line each.  <container> = avr | ircam | paf | svx  (voc, nist: not yet).
 
     hdr codec=<hex> endian=<0..3> ch=<n> sr=<n> [name=<hex>] frames=<n> filelength=<int> datalength=<int>
                                     -> <hex of the header writer's output>   (`bad-config` when not accepted)
@@ -118,7 +118,7 @@ partial def loop (ct : Container) (h : IO.FS.Stream) : IO Unit := do
 
 def cmd (args : List String) : IO UInt32 := do
   match args.head? >>= containerOf with
-  | none => IO.eprintln "usage: sfmodel small1 avr|ircam|paf|svx|voc|nist"; return 2
+  | none => IO.eprintln "usage: sfmodel small1 avr|ircam|paf|svx"; return 2
   | some ct =>
     loop ct (← IO.getStdin)
     return 0
